@@ -123,6 +123,19 @@ func (s *Solver) Check(base []*term.Term, extra []*term.Term, vars []*term.Term)
 	for _, v := range vars {
 		s.st.Define(&sb, v)
 	}
+	if s.st.Preamble.Len() > 0 {
+		// constant-table contents: assert them outside every scope, or a later (pop) would forget them
+		pre := s.st.Preamble.String()
+		s.st.Preamble.Reset()
+		defs := sb.String()
+		sb.Reset()
+		if n := len(s.stack); n > 0 {
+			fmt.Fprintf(&sb, "(pop %d)\n", n)
+			s.stack = s.stack[:0]
+		}
+		sb.WriteString(pre)
+		sb.WriteString(defs)
+	}
 	lcp := 0
 	for lcp < len(s.stack) && lcp < len(base) && s.stack[lcp] == base[lcp] {
 		lcp++
